@@ -75,11 +75,30 @@ func PathTo(fn *ssa.Function, start ssa.Instruction, target func(ssa.Instruction
 		from int // index of first instruction to execute
 		prev *item
 	}
-	seen := map[*ssa.BasicBlock]bool{}
+	// Blocks that branch on a phi of their own (a flag merged from several
+	// predecessors, the shape left behind by an unwrapped helper with several
+	// returns) are explored once per predecessor, and only the successor that
+	// the incoming constant selects is followed: a path that enters with
+	// done=true cannot leave through the done=false edge.
+	type seenKey struct {
+		b    *ssa.BasicBlock
+		pred int
+	}
+	seen := map[seenKey]bool{}
+	keyOf := func(b *ssa.BasicBlock, from *ssa.BasicBlock) seenKey {
+		if from != nil && phiBranch(b) != nil {
+			for i, p := range b.Preds {
+				if p == from {
+					return seenKey{b, i}
+				}
+			}
+		}
+		return seenKey{b, -1}
+	}
 	var queue []*item
 	if start == nil {
 		queue = append(queue, &item{b: fn.Blocks[0], from: 0})
-		seen[fn.Blocks[0]] = true
+		seen[seenKey{fn.Blocks[0], -1}] = true
 	} else {
 		b := start.Block()
 		queue = append(queue, &item{b: b, from: indexIn(b, start) + 1})
@@ -110,14 +129,22 @@ func PathTo(fn *ssa.Function, start ssa.Instruction, target func(ssa.Instruction
 		if blocked {
 			continue
 		}
+		only := -1
+		if it.prev != nil && it.from == 0 {
+			only = phiSelectedSucc(it.b, it.prev.b)
+		}
 		for si, s := range it.b.Succs {
+			if only >= 0 && si != only {
+				continue
+			}
 			if gates.Edge[Edge{it.b, si}] {
 				continue
 			}
-			if seen[s] {
+			k := keyOf(s, it.b)
+			if seen[k] {
 				continue
 			}
-			seen[s] = true
+			seen[k] = true
 			queue = append(queue, &item{b: s, from: 0, prev: it})
 		}
 	}
@@ -306,6 +333,12 @@ func norm(v ssa.Value, depth int, seen map[ssa.Value]bool) string {
 	d := depth + 1
 	switch x := v.(type) {
 	case *ssa.Parameter:
+		if a := closureArg(x); a != nil && !seen[x] {
+			seen[x] = true
+			r := norm(a, d, seen)
+			delete(seen, x)
+			return r
+		}
 		return "p:" + CanonParam(x)
 	case *ssa.FreeVar:
 		if r := cellRoot(x); r != ssa.Value(x) {
@@ -327,6 +360,20 @@ func norm(v ssa.Value, depth int, seen map[ssa.Value]bool) string {
 	case *ssa.Builtin:
 		return x.Name()
 	case *ssa.Alloc:
+		if val, ok := CellValue(x); ok {
+			if prm, isP := val.(*ssa.Parameter); isP {
+				// a spilled parameter: named after the parameter's canonical name, whatever the source calls it
+				return "new:" + CanonParam(prm)
+			}
+		}
+		if x.Comment == "new" {
+			if pt, ok := x.Type().Underlying().(*types.Pointer); ok {
+				if _, isStruct := pt.Elem().Underlying().(*types.Struct); isStruct {
+					// new(T) followed by field assignments is the same construction as &T{...}
+					return "new:complit"
+				}
+			}
+		}
 		if x.Comment != "" {
 			return "new:" + x.Comment
 		}
@@ -815,4 +862,116 @@ func isLenCall(v ssa.Value) bool {
 	}
 	b, ok := c.Common().Value.(*ssa.Builtin)
 	return ok && b.Name() == "len"
+}
+
+// phiBranch returns the phi (defined in b itself) on which b's terminating If
+// branches, possibly under negations, or nil.
+func phiBranch(b *ssa.BasicBlock) *ssa.Phi {
+	phi, _ := phiBranchNeg(b)
+	return phi
+}
+
+func phiBranchNeg(b *ssa.BasicBlock) (*ssa.Phi, bool) {
+	if len(b.Instrs) == 0 {
+		return nil, false
+	}
+	iff, ok := b.Instrs[len(b.Instrs)-1].(*ssa.If)
+	if !ok {
+		return nil, false
+	}
+	v := iff.Cond
+	neg := false
+	for {
+		if u, ok := v.(*ssa.UnOp); ok && u.Op == token.NOT {
+			v = u.X
+			neg = !neg
+			continue
+		}
+		break
+	}
+	phi, ok := v.(*ssa.Phi)
+	if !ok || phi.Block() != b {
+		return nil, false
+	}
+	// the block must do nothing observable but merge and branch, otherwise a
+	// per-predecessor view is still right (instructions are the same) - no restriction needed.
+	return phi, neg
+}
+
+// phiSelectedSucc returns the index of the only successor of b that can be
+// taken when b is entered from pred, or -1 when that is not determined.
+func phiSelectedSucc(b, pred *ssa.BasicBlock) int {
+	phi, neg := phiBranchNeg(b)
+	if phi == nil {
+		return -1
+	}
+	idx := -1
+	for i, p := range b.Preds {
+		if p == pred {
+			if idx >= 0 {
+				return -1 // entered twice from the same block: ambiguous
+			}
+			idx = i
+		}
+	}
+	if idx < 0 || idx >= len(phi.Edges) {
+		return -1
+	}
+	c, ok := phi.Edges[idx].(*ssa.Const)
+	if !ok || c.Value == nil {
+		return -1
+	}
+	val := c.Value.String() == "true"
+	if c.Value.String() != "true" && c.Value.String() != "false" {
+		return -1
+	}
+	if neg {
+		val = !val
+	}
+	if val {
+		return 0
+	}
+	return 1
+}
+
+// closureArg: a parameter of an anonymous function that is invoked at exactly
+// one place of its parent (defer func(x T){...}(arg), go, or a direct call) and
+// whose closure value is used nowhere else stands for that argument, exactly
+// as a captured variable stands for its binding.
+func closureArg(x *ssa.Parameter) ssa.Value {
+	fn := x.Parent()
+	if fn == nil || fn.Parent() == nil {
+		return nil
+	}
+	idx := -1
+	for i, q := range fn.Params {
+		if q == x {
+			idx = i
+		}
+	}
+	if idx < 0 {
+		return nil
+	}
+	var site ssa.CallInstruction
+	n := 0
+	Instrs(fn.Parent(), func(in ssa.Instruction) {
+		if mc, ok := in.(*ssa.MakeClosure); ok && mc.Fn == fn {
+			for _, r := range Referrers(mc) {
+				n++
+				if ci, ok := r.(ssa.CallInstruction); ok && ci.Common().Value == ssa.Value(mc) {
+					site = ci
+				} else {
+					n += 100
+				}
+			}
+		}
+		if ci, ok := in.(ssa.CallInstruction); ok && ci.Common().Value == ssa.Value(fn) {
+			n++
+			site = ci
+		}
+	})
+	if n != 1 || site == nil || idx >= len(site.Common().Args) {
+		return nil
+	}
+	return site.Common().Args[idx]
 }
